@@ -224,6 +224,17 @@ def sites_of(F, fn):
                         detail = "assert:" + rel
                 out.append(Site(fn, bi, "panic-call", detail, blk["line"], {"args": args}))
                 continue
+            if t.get("syn") and name == "index":
+                # synthesized by sa/desugar.py for `a.iter().zip(&b)` read by position below min(a.len(), b.len()): zip cannot panic
+                continue
+            ma = P._REF_ARITH.match(path)
+            if ma and len(args) == 2:
+                # `&a + b` on primitive integers panics on overflow like the plain operator (whose check is an Assert in MIR)
+                op_ = {"add": "Add", "sub": "Sub", "mul": "Mul"}[ma.group(3)]
+                a_, b_ = P.strip(args[0], calls=False), P.strip(args[1], calls=False)
+                out.append(Site(fn, bi, "assert-overflow", f"{op_}:{ma.group(1)}|{coarse2(a_)}|{coarse2(b_)}", blk["line"],
+                                {"a": a_, "b": b_, "op": op_, "a_ty": ma.group(1)}))
+                continue
             if name in UNWRAPS and (path.startswith("std::option::Option") or path.startswith("std::result::Result")):
                 prod = producer_of(args[0]) if args else "?"
                 out.append(Site(fn, bi, "unwrap", prod, blk["line"], {"arg": args[0] if args else None, "callee": path}))
@@ -346,6 +357,8 @@ def _bounded_counter(F, fn, pr, site):
         return None
     blk = fn.blocks[site.block]
     t = blk["term"]
+    if t["k"] != "assert":
+        return None
     cl = t["cond"].get("move") or t["cond"].get("copy")
     if cl is None:
         return None
